@@ -9,9 +9,11 @@ PROP = "C24"
 P = "Claripy.Props.C24."
 L = "Claripy.VSA."
 THEOREMS = [P + n for n in ("C24_convert_sound", "C24_bool_sound", "C24_if_join", "C24_light_min_max_over",
-                                "C24_convert_sound_rest", "C24_bool_sound_rest", "C24_fragment_sound", "C24_sound", "C24_sound_bool", "C24_fragment_noeq_sound", "C24_fragment_bool_sound", "C24_fragment_min_max_over", "queriesOK")] + \
+                                "C24_convert_sound_rest", "C24_bool_sound_rest", "C24_fragment_sound", "C24_sound", "C24_sound_bool", "C24_fragment_noeq_sound", "C24_fragment_bool_sound", "C24_fragment_min_max_over", "queriesOK",
+                                "C24_sound_aligned_fragment", "C24_sound_aligned_fragment_bool", "C24_sound_aligned", "C24_sound_aligned_bool", "C24_value_aligned", "C24_max_attained_aligned")] + \
            [L + n for n in ("convBV_good", "convB_good", "new_WF", "top_WF", "const_mem", "mem_integer", "brAnd_has", "brOr_has", "iteB_has",
-                            "convBV_rest_good", "convB_rest_good", "bin_proved", "bin_proved_nrm", "and_sound", "or_sound", "xor_sound", "concat_sound", "ashr_sound", "meet_sound", "mul_sound", "mod_sound", "usesRestBV_false", "usesRestB_false", "alBV_of_noEq", "alB_of_noEq", "zeroExtend_nrm", "sext_sound", "sext_nrm", "sextKeeps_sound", "widen_bits_nrm", "pseudoJoin_nrm", "scmp_sound", "defBV_some", "defB_some")]
+                            "convBV_rest_good", "convB_rest_good", "bin_proved", "bin_proved_nrm", "and_sound", "or_sound", "xor_sound", "concat_sound", "ashr_sound", "meet_sound", "mul_sound", "mod_sound", "usesRestBV_false", "usesRestB_false", "alBV_of_noEq", "alB_of_noEq", "zeroExtend_nrm", "sext_sound", "sext_nrm", "sextKeeps_sound", "widen_bits_nrm", "pseudoJoin_nrm", "scmp_sound", "defBV_some", "defB_some",
+                            "alBV_of_guardFree", "alB_of_guardFree", "bin_aligned", "guardFreeBV_of_all", "guardFreeB_of_all", "alSrc_of_all", "union_aligned", "pseudoJoin_aligned")]
 TESTS = [P + "test_eval_example"]
 
 
